@@ -87,7 +87,13 @@ package types
 //@   safety[C02]
 //@   requires l.table.data <= len(l.bytes)
 //@   requires 0 <= i && i < ite(l.table.big, len(l.table.table) / 4, len(l.table.table) / 2)
+//@   let T = mem(l.table.table)
+//@   let s = lo(l.table.table)
+//@   let end = ite(l.table.big, listBigEnd(T, s, i), listSmallEnd(T, s, i))
+//@   let start = ite(i == 0, 0, ite(l.table.big, listBigEnd(T, s, i - 1), listSmallEnd(T, s, i - 1)))
 //@   ensures[C02] within(result, l.bytes)
+//@   ensures[C01,C16] start <= end && end <= l.table.data ==> result == l.bytes[start:end]
+//@   ensures[C01,C16] start > end || end > l.table.data ==> len(result) == 0
 //@   noalloc[C17]
 
 //@ func (List).GetBytes
